@@ -156,13 +156,13 @@ Proof.
   apply T_updd; [exact K| |apply (L OKF en V)]. intros _ NS. contradiction.
 Qed.
 
-Lemma LT_updd_safe (skip : Z -> Prop) en0 w d g f : tsafe g f -> g (getd w d) -> LT skip en0 w -> LT skip en0 (updd w d f).
+Lemma LT_updd_safe st (skip : Z -> Prop) en0 w d g f : tsafe st g f -> g (getd w d) -> LT skip en0 w -> LT skip en0 (updd w d f).
 Proof.
   intros TS G L OKF en V. rewrite okf_updd in OKF. rewrite (venv_same ws en0 w (updd w d f) eq_refl) in V.
   specialize (L OKF en V). destruct L as [E H]. split; [exact E|]. intros d' NS TK.
   rewrite getd_updd in *. destruct (Z.eqb_spec d' d) as [->|N]; cbn [andb] in *; [|apply H; assumption].
   destruct (amem d (f_devs w)) eqn:M; [|apply H; assumption].
-  destruct (TS (getd w d) G) as [K B]. rewrite K in TK. unfold bexp. rewrite (B TK). apply H; assumption.
+  destruct (TS (getd w d) G) as [K [B _]]. rewrite K in TK. unfold bexp. rewrite (B TK). apply H; assumption.
 Qed.
 
 Lemma T_env skip w en en' : (EvOK en -> EvOK en') -> (forall d, cnt d en' = cnt d en) -> T skip w en -> T skip w en'.
@@ -236,9 +236,9 @@ Proof.
 Qed.
 
 (** * every step preserves the link *)
-Theorem jstep_LT nw skip en0 w w' : jstep nw w w' -> LT skip en0 w -> LT skip en0 w'.
+Theorem jstep_LT st nw skip en0 w w' : jstep st nw w w' -> LT skip en0 w -> LT skip en0 w'.
 Proof.
-  intros S L. destruct S as [w d g f TS G|w c EO|w w' D O OK|w w' DEAD|w pid f|w w' d n HL BAL|w w1 d HL BZ].
+  intros S L. destruct S as [w d g f TS G|w c EO|w w' D O OK|w w' DEAD|w pid f|w w' d n HL BAL _|w w1 d HL BZ _].
   - eapply LT_updd_safe; eauto.
   - apply LT_emit; [|exact L]. destruct c as [t p a act|lb sb pl|a|a|a]; cbn in *; auto. destruct act; auto. destruct EO; auto.
   - eapply LT_quiet; eauto.
@@ -262,7 +262,7 @@ Proof.
     + rewrite C. apply Z.eqb_neq in N. rewrite N. rewrite (G d' ltac:(apply Z.eqb_neq; exact N)) in *. rewrite (H d' NS TK). lia.
 Qed.
 
-Theorem RJ_LT nw skip en0 w w' : RJ nw w w' -> LT skip en0 w -> LT skip en0 w'.
+Theorem RJ_LT st nw skip en0 w w' : RJ st nw w w' -> LT skip en0 w -> LT skip en0 w'.
 Proof. intro H. induction H as [|w1 w2 w3 S _ IH]; intro L; [exact L|]. apply IH. eapply jstep_LT; eauto. Qed.
 
 (** * the end of a cycle puts its own device right: its timer has just been taken off the queue *)
@@ -278,7 +278,7 @@ Proof.
   destruct (operational (getd w d)) eqn:OP; [|apply LT_dead; unfold finish_cycle; rewrite OP; destruct (d_kind (getd w d)); try discriminate; apply okf_failf_nonzero; discriminate].
   destruct (d_part (getd w d)) as [it|] eqn:P; [|apply LT_dead; unfold finish_cycle; rewrite OP, P; destruct (d_kind (getd w d)); try discriminate; apply okf_failf_nonzero; discriminate].
   destruct (d_out (getd w d)) eqn:O; [apply LT_dead; unfold finish_cycle; rewrite OP, P, O; destruct (d_kind (getd w d)); try discriminate; apply okf_failf_nonzero; discriminate|].
-  eapply RJ_LT; [apply (RJ_finish_tail nw fuel w d it TK OP P O)|].
+  eapply RJ_LT; [apply (RJ_finish_tail false nw fuel w d it TK OP P O)|].
   apply (LT_split skip d).
   - apply LT_updd_skip; [intro y; unfold tfin; destruct (d_kind (getd w d)); reflexivity|right; reflexivity|exact L].
   - intros OKF en V _ _. rewrite okf_updd in OKF. rewrite (venv_same ws en0 w (updd w d (tfin nw (d_kind (getd w d)) it)) eq_refl) in V. rewrite (C0 OKF en V).
@@ -331,9 +331,9 @@ Proof.
            ++ intros _ en' V. unfold FloorIdle.venv in V. rewrite O in V. cbn in V. injection V as <-.
               rewrite C1, F0. pose proof (H d0 (fun X => X) TK0) as HH. pose proof (cntl_nonneg d0 q). pose proof (cntl_nonneg d0 (paused en)).
               unfold cnt in HH. rewrite Q, cntl_cons, F0 in HH. unfold bexp in *. unfold cnt. rewrite Q, cntl_cons, F0. destruct (busy (getd w d0)); lia.
-        -- apply (RJ_LT (e_time e) _ en1 w w1); [apply RJ_exec_fact; intros d X; injection X as <-; exact TK0|].
+        -- apply (RJ_LT false (e_time e) _ en1 w w1); [apply RJ_exec_fact; intros d X; injection X as <-; exact TK0|].
            apply LT_start; [exact O|]. split; [exact E1|]. intros d NS TK. rewrite C1, OTH; [rewrite (H d NS TK); lia|]. congruence.
-      * apply (RJ_LT (e_time e) _ en1 w w1); [apply RJ_exec_fact; intros d X; exfalso; exact (NF d X)|].
+      * apply (RJ_LT false (e_time e) _ en1 w w1); [apply RJ_exec_fact; intros d X; exfalso; exact (NF d X)|].
         apply LT_start; [exact O|]. split; [exact E1|]. intros d NS TK. rewrite C1.
         assert (X : isfin d e = false) by (unfold isfin; rewrite AE; destruct a; try (apply andb_false_r); exfalso; eapply NF; reflexivity).
         rewrite X. rewrite (H d NS TK). lia.
@@ -341,8 +341,8 @@ Proof.
       change (cnt d (set_terminated en1 true)) with (cnt d en1). rewrite C1. unfold isfin. rewrite AE. rewrite andb_false_r. rewrite (H d NS TK). lia.
 Qed.
 
-Lemma TS_fin (w0 : fw) (en : fenv) (w : fw) s' :
-  f_out w0 = [] -> T (fun _ => False) w0 en -> RJ (now en) w0 w ->
+Lemma TS_fin st (w0 : fw) (en : fenv) (w : fw) s' :
+  f_out w0 = [] -> T (fun _ => False) w0 en -> RJ st (now en) w0 w ->
   (let '(w1, cs) := flush_f w in
    match apply_cmds ws en cs with
    | Ok en' => ((clear_ferr w1, en'), f_err w1)
@@ -354,7 +354,7 @@ Proof.
   destruct (apply_cmds ws en (snd (flush_f w))) as [en'|en'] eqn:AC.
   - intro E. injection E as <- E0. cbn [fst snd]. split; [reflexivity|].
     apply (T_same_devs _ w); [reflexivity|].
-    apply (RJ_LT (now en) _ en w0 w HR (LT_start _ en w0 O H)); [|exact AC].
+    apply (RJ_LT st (now en) _ en w0 w HR (LT_start _ en w0 O H)); [|exact AC].
     unfold okf. cbn in E0. rewrite E0. reflexivity.
   - intro E. injection E as _ E0. st0 E0.
 Qed.
@@ -376,10 +376,10 @@ Theorem reach_in_TS s : f_out (fq_world sc) = [] -> reach_in sc s -> TS s.
 Proof.
   intro O0. induction 1 as [s WF E|s o s' _ IH E|s t k p s' _ IH E|s s' _ IH E|s d en' _ IH E].
   - unfold do_fxop in E. cbn [fst snd] in E.
-    apply (TS_fin wsd (fq_world sc) init_env (init_world (fl_fuel (fq_world sc)) (now (init_env (A:=fact))) (fq_world sc)) s O0); [|apply RJ_init_world|exact E].
+    apply (TS_fin wsd false (fq_world sc) init_env (init_world (fl_fuel (fq_world sc)) (now (init_env (A:=fact))) (fq_world sc)) s O0); [|apply RJ_init_world; reflexivity|exact E].
     split; [split; constructor|]. intros d _ _. rewrite (pristine_idle _ WF). reflexivity.
   - destruct IH as [O H]. unfold do_fxop in E.
-    apply (TS_fin wsd (fst s) (snd s) (run_uop (fl_fuel (fst s)) (now (snd s)) (fst s) o) s' O H); [apply RJ_run_uop|exact E].
+    apply (TS_fin wsd false (fst s) (snd s) (run_uop (fl_fuel (fst s)) (now (snd s)) (fst s) o) s' O H); [apply RJ_run_uop|exact E].
   - destruct IH as [O H]. unfold do_fxop in E.
     destruct (apply_cmd wsd (snd s) (CSched t p (-5) (AUser k))) as [en'|en'] eqn:AC; [|discriminate].
     injection E as <-. cbn [fst snd]. split; [exact O|].
